@@ -123,6 +123,11 @@ def run(ctx):
     ob = [b for b in ob if sum(1 for x in b if x["op"] == "ApplyO") >= 1 and any(x["op"] in ("Call", "CallPh") for x in b)]
     ob += ctx.behaviours(ctx.tlc("OriginReuse", "Sim_OriginReuse.cfg", workers=1, timeout=900, simulate="num=%d" % (300 if q else 5000), depth=15, tag="random histories, 3 targets sharing 2 placeholders"))
     replay_family(ctx, "origin-reuse", ob, classify=f5_reuse)
+    # function LITERALS as targets (symbols pkg.glob..funcN): apply with origin, calls of the target and of the placeholder
+    lit = {"B": '{"b1"}', "T": '{"f", "g"}', "CB": '{"c1"}', "RS": "<- RS_1", "A": "{1}", "Ops": "<- AllOps"}
+    from checks import life
+    lb = life.gen(ctx, lit, 2 if q else 3, "all histories over function literals")
+    replay_family(ctx, "life-literal", lb, classify=life.classify)
     ctx.cov["rule"] = ("relocation: functions of 14..1500 bytes of real binaries (seeded sample in quick, all in thorough) x placeholder "
                        "distances {+1MiB, -2MiB, +64, -96}; each record parsed and judged inside TLC; non-trivial = relocation accepted "
                        "and judged faithful. control flow: 4 handle kinds x {call mocked target, call placeholder} x stack depths in "
